@@ -201,10 +201,14 @@ class Evaluator:
                 raise Cycle(key)
             self.stack.append(key)
             self.touched.append(key)
+            depth0, self.depth = getattr(self, 'depth', 0), 0
             try:
                 v = self.scalar(self.ev(self.parse_fn(raw), sheet, (r, c)))
             finally:
                 self.stack.pop()
+                self.depth = depth0
+            if v is ANY and self.stack:
+                raise NoOpinion('a value the statement leaves open flows into a dependent cell')
         else:
             v = self._seen(self._const(raw))
         self.memo[key] = v
@@ -280,7 +284,15 @@ class Evaluator:
             f = FUNCS.get(n[1])
             if f is None:
                 raise NoOpinion('function ' + n[1])
-            return f(self, n[2], sheet, at)
+            self.depth = getattr(self, 'depth', 0) + 1
+            try:
+                v = f(self, n[2], sheet, at)
+            finally:
+                self.depth -= 1
+            if v is ANY and self.depth > 0:
+                # "anything" is an answer for a whole formula only: inside a nest the enclosing function would have to work on it
+                raise NoOpinion('a value the statement leaves open flows into an enclosing function')
+            return v
         raise NoOpinion(k)
 
     def binop(self, op, a, b):
@@ -433,7 +445,7 @@ def _sum(ev, a, sh, at):
 def _average(ev, a, sh, at):
     n = ev.numeric_items(a, sh, at)
     if not n:
-        return ANY
+        raise XlError('#DIV/0!')      # the average of no numbers
     return sum(n) / len(n)
 
 
